@@ -7,7 +7,6 @@ import (
 	"flag"
 	"fmt"
 	"os"
-	"path/filepath"
 	"strconv"
 
 	"verifharness/fw"
@@ -55,9 +54,8 @@ func main() {
 			fmt.Printf("INCONCLUSIVE property=%s reason=%v\n", *prop, err)
 			os.Exit(2)
 		}
-		work := filepath.Join(fw.VerifDir(), ".work", *prop)
-		os.RemoveAll(work)
-		if err := os.MkdirAll(work, 0o755); err != nil {
+		work, err := fw.WorkDir(*prop)
+		if err != nil {
 			fmt.Printf("INCONCLUSIVE property=%s reason=%v\n", *prop, err)
 			os.Exit(2)
 		}
